@@ -18,6 +18,8 @@ func init() {
 			"NOT decided: process-level observation of the panic; goroutines inside dependencies.",
 		Assumptions: []string{"a panic in a library goroutine terminates the process (no recover in the module)"},
 		Rules: []RuleDef{
+			{ID: "C15.R30", Text: "a membership change is never absorbed by a rebalance already under way: the rebalance decision evaluated exhaustively — a change that arrives while the delayed re-open is pending or running re-arms it (same rule as C11.R13)", Run: rebalanceDecision},
+			{ID: "C15.R31", Text: "which failures are survivable is decided per failure: errors.As targets are read only under the true result of their own errors.As (same rule as C20.R26)", Run: errorsAsFresh},
 			{ID: "C15.R1", Text: "checkpoint-ahead guard: panic ⇔ doc.SeqNo > high seqNo of the same vBucket; offsets.Store(vbID, …) exactly once otherwise", Run: c15r1},
 			{ID: "C15.R2", Text: "load errors are fatal: each listed error reaches panic/return and the continuation is dominated by err==nil", Run: c15r2},
 			{ID: "C15.R3", Text: "open all or die: each spawned opener panics on error (or records it only under err≠nil); WaitGroup Add(len(vbIDs)) / Done after success / Wait before return", Run: c15r3},
